@@ -383,14 +383,14 @@ JITTER_TM = {
                         "  simp only [Nat.mod_eq_of_lt h, bind_assoc, pure_bind, Jitter.TM.rlc_folds n h]\n  rfl"),
     "lfsr_time": ("∀ st time b, Ext.JitterRng.lfsr_time st time b = Jitter.lfsrTime st time b", ["C12"],
                   "intro st time b\n  unfold Ext.JitterRng.lfsr_time Jitter.lfsrTime\n"
-                  "  simp only [JitterRng.random_loop_cnt st 4#32 (by decide), JitterLfsr.lfsr, bind_assoc, pure_bind]\n  cases b <;> simp"),
+                  "  simp only [JitterRng.random_loop_cnt st 4#32 (by decide), JitterLfsr.lfsr, bind_assoc, pure_bind]\n  first | done | (cases b <;> simp)"),
     "memaccess": ("∀ st b, Ext.JitterRng.memaccess st b = Jitter.memaccess st b", ["C12"],
                   "intro st b\n  exact Jitter.TM.memaccess_tie Ext.JitterRng.random_loop_cnt (fun st => JitterRng.random_loop_cnt st 4#32 (by decide)) st b"),
     "measure_jitter": ("∀ st ec, Ext.JitterRng.measure_jitter st ec = "
                        "(do let r ← Jitter.measureJitter st ec; pure (if r.1 then some () else none, r.2.1, r.2.2))", ["C12"],
                        "intro st ec\n  unfold Ext.JitterRng.measure_jitter Jitter.measureJitter\n"
                        "  simp only [JitterRng.memaccess, JitterRng.lfsr_time, EcState.stuck, bind_assoc, pure_bind]\n"
-                       "  congr 1; funext a; congr 1; funext t; congr 1; funext b\n  split <;> simp"),
+                       "  first | done | (congr 1; funext a; congr 1; funext t; congr 1; funext b; split <;> simp) | (split <;> simp) | simp"),
     "gen_entropy": ("∀ st, Ext.JitterRng.gen_entropy st = Jitter.genEntropy st", ["C12"],
                     "intro st\n  exact Jitter.TM.gen_entropy_tie Ext.JitterRng.measure_jitter JitterRng.measure_jitter "
                     "Ext.JitterRng.stir_pool JitterRng.stir_pool st"),
@@ -399,7 +399,7 @@ JITTER_TM = {
                    "JitterRng.lfsr_time Ext.EcState.stuck EcState.stuck st"),
     "timer_stats": ("∀ st b, Ext.JitterRng.timer_stats st b = Jitter.timerStats st b", ["C12"],
                     "intro st b\n  unfold Ext.JitterRng.timer_stats Jitter.timerStats\n"
-                    "  simp only [JitterRng.memaccess, JitterRng.lfsr_time, bind_assoc, pure_bind]"),
+                    "  simp only [JitterRng.memaccess, JitterRng.lfsr_time, bind_assoc, pure_bind]\n  first | done | rfl | simp"),
     "set_rounds": ("∀ st (r : BitVec 8), Ext.JitterRng.set_rounds st r = Jitter.setRounds st r.toNat", ["C12"],
                    "intro st r\n  simp only [Ext.JitterRng.set_rounds, Jitter.setRounds, gt_iff_lt, BitVec.lt_def, decide_eq_true_eq, "
                    "BitVec.toNat_ofNat, Nat.zero_mod]\n  rfl"),
@@ -407,10 +407,10 @@ JITTER_TM = {
     "clone": ("Ext.JitterRng.clone = Jitter.clone", ["C12", "C05", "C16"], "first | rfl | (funext st; rfl)"),
     "next_u64": ("∀ st, Ext.JitterRng.next_u64 st = Jitter.nextU64 st", ["C12", "C05", "C16"],
                  "intro st\n  unfold Ext.JitterRng.next_u64 Jitter.nextU64\n  simp only [JitterRng.gen_entropy, bind_assoc, pure_bind]\n"
-                 "  first | rfl | simp"),
+                 "  first | done | rfl | simp"),
     "next_u32": ("∀ st, Ext.JitterRng.next_u32 st = Jitter.nextU32 st", ["C12", "C05", "C16"],
                  "intro st\n  unfold Ext.JitterRng.next_u32 Jitter.nextU32\n  simp only [JitterRng.next_u64, bind_assoc, pure_bind]\n"
-                 "  split <;> simp"),
+                 "  first | done | rfl | (split <;> simp) | simp"),
     "fill_bytes": ("∀ st n, Ext.JitterRng.fill_bytes st n = Jitter.fill n st", ["C12", "C05", "C16"],
                    "intro st n\n  exact Jitter.TM.fill_tie Ext.JitterRng.next_u32 JitterRng.next_u32 Ext.JitterRng.next_u64 JitterRng.next_u64 st n"),
 }
